@@ -130,7 +130,8 @@ class C15(Property):
             "every key. concurrency: 2-5 goroutines with 1-3 calls each on one ring, mostly on one contested node, a "
             "forced schedule at the granularity [Remove] ; [insert] (calls parked between their two critical sections "
             "by the node's String()), Get for 24 probes after every step, lookups parked between slot lookup and member "
-            "pick (Stringer key on a shared slot) while a Remove / re-Add is started. non-trivial = ring: two members, a remove or re-add, some probe changes owner; script: "
+            "pick (Stringer key on a shared slot) while a Remove / re-Add is started, add-type calls held inside the hashing "
+            "of their virtual nodes (gated hash function) while a Remove + Add swap of other nodes is started. non-trivial = ring: two members, a remove or re-add, some probe changes owner; script: "
             "touches on >= 2 servers; distinct = canonical JSON hash of the case")
     trusted_base = [
         "models theories/C15/Model.v, Cluster.v are hand-written; tie = correspondence runs (harness/cmd/c15) through the public API",
@@ -479,6 +480,16 @@ class C15(Property):
                        [0] * 6 + [st for j in range(10) for st in (["g", j, 1], ["g", (j + 3) % 10, 1])],
                        [S("11%d" % j) for j in range(10)] + [S("key:%d" % i) for i in range(10)])
             for first, second in (("1", "11"), ("11", "1"))
+        ] + [
+            # Add(a) held inside the hashing of its virtual nodes while Remove(b) and Add(c) are started: b and c
+            # have the same number of virtual nodes (the key count is the same before and after the swap);
+            # then a swap with different counts, a lone Remove, a lone Add, a re-add of the held node itself
+            self._conc(R, ["keep", "b", "a", "c", "d"],
+                       [[["add", 0], ["add", 1]], [["add", 2], [kind, 4] + arg, ["addw", 2, 50]],
+                        [["remove", 1], ["add", 3], ["remove", 3], ["addw", 1, 50], ["remove", 0], ["addr", 2, 7], ["add", 0]]],
+                       [0, 0, 0, 0, ["h", 1, [2, 2]], ["h", 1, [2, 2]], 2, ["h", 1, [2, 2]], 2],
+                       [S("key-%d" % i) for i in range(40)])
+            for R, kind, arg in ((0, "add", []), (150, "addw", [100]))
         ]
 
     def _gen_conc(self, rng):
@@ -523,16 +534,38 @@ class C15(Property):
                 p = rng.randrange(min(8, len(shared))) if shared and rng.random() < 0.8 else rng.randrange(len(ps))
                 if ps[p]["kind"] == "str":
                     sched[pos] = ["g", p, sched[pos]]
+        if rng.random() < 0.5 and all(isinstance(st, int) for st in sched):
+            # a call held inside its hashing while others run: rebuild the schedule around it.  Thread A contributes
+            # one add-type call at a call boundary; the calls started meanwhile often form a swap (Remove of one
+            # node, Add of another with the same count)
+            ta = rng.randrange(len(threads))
+            k = rng.randrange(len(nodes))
+            threads[ta] = [rng.choice([["add", k], ["addw", k, rng.choice([100, 50, 10])], ["addr", k, rng.choice([Reff, 50, 3])]])]
+            others = [i for i in range(len(threads)) if i != ta]
+            out_n, in_n = rng.sample(range(len(nodes)), 2) if len(nodes) >= 2 else (0, 0)
+            cnt = rng.choice([["add"], ["addw", 50], ["addr", 7]])
+            swapper = len(threads)
+            same = rng.random() < 0.7
+            threads.append([[cnt[0], out_n] + cnt[1:], ["remove", out_n],
+                            ([cnt[0], in_n] + cnt[1:]) if same else ["addr", in_n, rng.choice([1, 50, Reff])]])
+            pre = [i for i in others for o in threads[i] for _ in range(self._op_len(o))]
+            rng.shuffle(pre)
+            cut = rng.randint(0, len(pre))
+            inner = [swapper, swapper] if rng.random() < 0.8 else [swapper]
+            if others and rng.random() < 0.3:
+                inner.append(rng.choice(others))    # one more call (or the second half of a parked one)
+            # the swapper's first call completes, A is held, the swap runs (or blocks), the rest follows;
+            # surplus steps of a thread that has nothing left are idle steps
+            sched = pre[:cut] + [swapper, swapper, ["h", ta, inner]] + pre[cut:] + [swapper, swapper]
         return self._conc(R, nodes, threads, sched, ps)
 
     def _conc_steps(self, case, obs):
-        """per schedule step: the actions that really ran, as (kind, node index, requested replicas)"""
+        """per schedule step: the actions that really ran, in order, as (kind, node index, requested replicas)"""
         R = obs["r"]
         nxt = [0] * len(case["threads"])
         parked = [None] * len(case["threads"])
-        steps = []
-        for st, what in zip(case["sched"], obs.get("res") or []):
-            ti = self._tid(st)
+
+        def one(ti, what):
             acts = []
             if what == "ins":
                 o = parked[ti]
@@ -546,7 +579,21 @@ class C15(Property):
                     acts.append(("ins", o[1], add_replicas(o, R)))
                 elif o[0] != "remove":
                     parked[ti] = o
-            steps.append(acts)
+            return acts
+
+        steps = []
+        for st, what in zip(case["sched"], obs.get("res") or []):
+            if not isinstance(st, int) and st[0] == "h":
+                # the held call's Remove, the calls that finished inside its hashing, its insertion, the others
+                _, wa, inside, ws = what.split("|")
+                ws = ws.split(",") if ws else []
+                held = one(st[1], wa)
+                inner = [one(ti, w) for ti, w in zip(st[2], ws)]
+                k = int(inside)
+                acts = held[:1] + [x for l in inner[:k] for x in l] + held[1:] + [x for l in inner[k:] for x in l]
+                steps.append(acts)
+            else:
+                steps.append(one(self._tid(st), what))
         return steps
 
     def _coq_conc(self, case, obs):
@@ -888,6 +935,19 @@ class C15(Property):
         return len(hs) == len(set(hs))
 
     def shrink_candidates(self, case):
+        if case.get("kind") == "conc" and any(not isinstance(st, int) and st[0] == "h" for st in case["sched"]):
+            # schedules with a held hashing: cut the schedule after a step; fewer calls inside the window; fewer probes
+            res = []
+            sc = case["sched"]
+            for i in range(len(sc) - 1, 0, -1):
+                res.append(dict(case, sched=sc[:i]))
+            for i, st in enumerate(sc):
+                if not isinstance(st, int) and st[0] == "h" and len(st[2]) > 1:
+                    res.append(dict(case, sched=sc[:i] + [["h", st[1], st[2][:-1]]] + sc[i + 1:]))
+            if len(case["probes"]) > 4:
+                res.append(dict(case, probes=case["probes"][:len(case["probes"]) // 2]))
+                res.append(dict(case, probes=case["probes"][len(case["probes"]) // 2:]))
+            return res
         if case.get("kind") == "conc":
             res = []
             for ti, ops in enumerate(case["threads"]):
@@ -943,7 +1003,7 @@ class C15(Property):
 
     def nontrivial(self, case, obs):
         if case.get("kind") == "conc":
-            return any(w == "ins" for w in obs.get("res") or []) and len(set(map(tuple, obs["gets"]))) >= 2
+            return any(w == "ins" or w.startswith("h|") for w in obs.get("res") or []) and len(set(map(tuple, obs["gets"]))) >= 2
         if case.get("kind") == "script":
             return len(set(t % 64 for row in obs.get("touch") or [] for t in row)) >= 2
         gets = obs["gets"]
@@ -980,6 +1040,11 @@ class C15(Property):
                 fs.append("conc_two_layers_of_one_node")
             if removed_mixed:
                 fs.append("conc_remove_of_a_layered_node")
+            for w in obs.get("res") or []:
+                if w.startswith("h|"):
+                    fs.append("conc_call_held_in_hashing")
+                    if int(w.split("|")[2]) > 0:
+                        fs.append("conc_calls_ran_inside_hashing")
             for go in obs.get("gobs") or []:
                 if go:
                     fs.append("conc_lookup_overlapping_a_step")
